@@ -117,6 +117,7 @@ theorem getEntryCore_ok (a : DynAcc) (c : Bytes) (tbl : Option Bytes) (hB : Base
                   | none => .invalid
                 else .invalid := by
   unfold getEntryCore
+  dyn_tie
   by_cases hv : idx.toNat < count.toNat
   · have g0 : dyn_get_index_invalid idx count = false := by
       unfold dyn_get_index_invalid; bvn; simp; omega
@@ -191,6 +192,7 @@ theorem numLoop_ok (fuel : Nat) (a : DynAcc) (c : Bytes) (tbl : Option Bytes) (h
         (entriesOf a.cfg c)[i.toNat] :: (entriesOf a.cfg c).drop (i.toNat + 1) :=
       List.drop_eq_getElem_cons hidx
     unfold numLoop
+    dyn_tie
     simp only [g0, ↓reduceIte, hg, bind, Except.bind]
     rw [tag_is_null_iff]
     by_cases hz : ((r.tagOr prev).toNat == 0) = true
@@ -232,6 +234,7 @@ theorem entriesNum_ok (a : DynAcc) (c : Bytes) (tbl : Option Bytes) (hG : Good a
     simp only [BitVec.ule, Nat.le_refl, decide_true, Bool.and_self, Bool.and_true, BitVec.reduceSignExtend]
     rw [Bool.eq_iff_iff]; simp only [beq_iff_eq]; exact eq_comm
   unfold entriesNum
+  dyn_tie
   rw [hrec]
   by_cases h0 : a.cache = 0
   · have g2 : ¬ (a.sec.entSize = 0) := by
@@ -850,6 +853,7 @@ theorem getData_nodata {b : SecBuf} (hd : b.data = none) (hn : b.isNullOrNobits 
 theorem rawEntryOn_nodata (c32 : Bool) (e : Enc) (sec : SecBuf) (hd : sec.data = none) (idx : BitVec 64) :
     rawEntryOn c32 e sec idx = .ok fabricated := by
   unfold rawEntryOn
+  dyn_tie
   have h1 : dyn32_get_nodata sec.data.isNone sec.entSize = true := by simp [dyn32_get_nodata, hd]
   have h2 : dyn64_get_nodata sec.data.isNone sec.entSize = true := by simp [dyn64_get_nodata, hd]
   simp only [h1, h2, ite_self, ↓reduceIte]; rfl
@@ -863,6 +867,7 @@ theorem getEntryCore_nodata (a : DynAcc) (hd : a.sec.data = none) (hn : a.sec.is
       .ok (if idx.toNat < count.toNat then ({ a with sec := a.sec.getData }, .ok (BitVec.ofNat 64 DT_NULL) 0 [])
            else (a, .invalid)) := by
   unfold getEntryCore
+  dyn_tie
   by_cases hv : idx.toNat < count.toNat
   · have g0 : dyn_get_index_invalid idx count = false := by
       unfold dyn_get_index_invalid; bvn; simp; omega
@@ -882,6 +887,7 @@ theorem numLoop_nodata (a : DynAcc) (hd : a.sec.data = none) (hn : a.sec.isNullO
   have hlt : (0 : BitVec 64).toNat < a.cache.toNat := by rw [z]; exact hc
   have hnull : dyn_num_tag_is_null (BitVec.ofNat 64 DT_NULL) = true := by decide
   unfold numLoop
+  dyn_tie
   simp only [g0, ↓reduceIte, getEntryCore_nodata a hd hn, bind, Except.bind, hlt, GetRes.tagOr, hnull, pure,
     Except.pure]
 
@@ -923,6 +929,7 @@ theorem nodata_fabricates (a : DynAcc) (hd : a.sec.data = none) (hn : a.sec.isNu
     (BitVec.ofNat 64 DT_NULL) hpos
   have hnum : a.entriesNum = .ok ({ a with sec := a.sec.getData, cache := 1 }, 1) := by
     unfold entriesNum
+    dyn_tie
     simp only [hrec, ↓reduceIte, g2, hn', hloop, bind, Except.bind, pure, Except.pure, clamp_one _ hpos]
   have d1 : ({ a with sec := a.sec.getData, cache := 1 } : DynAcc).sec.data = none := getData_nodata hd hn
   have n1 : ({ a with sec := a.sec.getData, cache := 1 } : DynAcc).sec.isNullOrNobits = true := by
